@@ -551,6 +551,8 @@ func (c *Conn) Write(r *Ctx) {
 	default:
 	}
 
+	verifYield("write-after-precheck")
+
 	select {
 	case c.in <- r:
 		verifClientEnq("in")
